@@ -98,6 +98,25 @@ def rejected_by_name(out):
     return dm, dt
 
 
+def crashing_methods(cur, backend, extra, srcdir):
+    """The methods of `cur` on which the back end panics when each is the only method of the module.  A back-end crash on
+    an accepted module is C15's subject; for the claimed properties such methods are outside "what the tool accepts"
+    and are dropped (and listed in evidence), exactly like items rejected by name."""
+    bad = set()
+    probe = os.path.join(srcdir, "crash_probe.rs")
+    for m in list(cur.methods):
+        single = bridgegen.filtered(cur, method_pred=lambda x, m=m: x is m)
+        with open(probe, "w") as fh:
+            fh.write(single.emit_lib())
+        ok, out = run_tool(backend, probe, os.path.join(srcdir, "crash_probe_out"), extra)
+        if not ok and "panicked at" in out and not any(rejected_by_name(out)):
+            bad.add((m.owner, m.name))
+    shutil.rmtree(os.path.join(srcdir, "crash_probe_out"), ignore_errors=True)
+    if os.path.exists(probe):
+        os.remove(probe)
+    return bad
+
+
 class StaticFinding:
     """A declaration-level disagreement (no values involved): reported like a failed harness."""
 
@@ -131,7 +150,9 @@ def prepare_module(mod, steps):
         # evidence), so that a tightened acceptance rule does not turn into an alarm here (acceptance itself is C05's subject).
         dm, dt = rejected_by_name(out)
         if not dm and not dt:
-            break
+            dm = crashing_methods(mod, "c", None, os.path.join(d, "src")) if "panicked at" in out else set()
+            if not dm:
+                break
         fitted_out += sorted("%s::%s" % x for x in dm) + sorted(dt)
         name = mod.name
         mod = bridgegen.filtered(mod, drop_methods=dm, drop_types=dt)
@@ -178,6 +199,7 @@ def prepare_dialect(mod, which):
     cur = bridgegen.filtered(mod, method_pred=spec["pred"], suffix="_" + which)
     d = os.path.join(GEN_ROOT, cur.name)
     fitted_out = []
+    crashed_out = []
     for attempt in range(6):
         shutil.rmtree(d, ignore_errors=True)
         os.makedirs(os.path.join(d, "src"))
@@ -193,8 +215,12 @@ def prepare_dialect(mod, which):
             break
         dm, dt = rejected_by_name(out)
         if not dm and not dt:
-            raise RuntimeError("diplomat-tool %s crashed on generated module %s: %s" % (which, cur.name, out[-1200:]))
-        fitted_out += sorted("%s::%s" % x for x in dm) + sorted(dt)
+            dm = crashing_methods(cur, spec["backend"], spec["extra"], os.path.join(d, "src")) if "panicked at" in out else set()
+            if not dm:
+                raise RuntimeError("diplomat-tool %s crashed on generated module %s: %s" % (which, cur.name, out[-1200:]))
+            crashed_out += sorted("%s::%s" % x for x in dm)
+        else:
+            fitted_out += sorted("%s::%s" % x for x in dm) + sorted(dt)
         name = cur.name
         cur = bridgegen.filtered(cur, drop_methods=dm, drop_types=dt)
         cur.name = name
@@ -212,7 +238,7 @@ def prepare_dialect(mod, which):
         gen["static"].append((re.sub(r"\W+", "_", x)[:60], x[len("MISMATCH "):], ["C07"]))
     with open(lib, "w") as fh:
         fh.write(cur.emit_lib(harness_text=gen["text"], mirror_text=gen["mirror"], mirror_mod=spec["dialect"]["mod"]))
-    return {"dir": d, "cm": cm, "gen": gen, "problems": probs, "mod": cur, "fitted_out": fitted_out}
+    return {"dir": d, "cm": cm, "gen": gen, "problems": probs, "mod": cur, "fitted_out": fitted_out, "crashed_out": crashed_out}
 
 
 def harness_compile_findings(prep, log_):
@@ -327,7 +353,7 @@ def run_dialects(prop):
                 out["violations"].append(("static:%s:%s:%s" % (mod.name, which, subject), path, message))
             programs.append({"module": prep["mod"].name, "backend": which, "methods": len(prep["mod"].methods), "native_functions": len(prep["cm"].functions),
                              "native_structs": len(prep["cm"].structs), "harnesses": len(wanted), "dropped_by_profile": len(prep["fitted_out"]),
-                             "skipped": prep["gen"]["skipped"]})
+                             "dropped_because_the_back_end_panics": prep.get("crashed_out", []), "skipped": prep["gen"]["skipped"]})
             if not wanted:
                 continue
             ht = 1800 if tier() == "thorough" else 600
